@@ -140,7 +140,7 @@ def judge(acc, recipe, version, mode, ss, origin, run_echo=True):
     try:
         prog = b.program()
         teal = pt.compileTeal(prog, pt.Mode.Application if mode == "app" else pt.Mode.Signature, version=version,
-                              optimize=pt.OptimizeOptions(scratch_slots=ss, frame_pointers=False if version >= 8 else None))
+                              optimize=pt.OptimizeOptions(scratch_slots=ss, frame_pointers=([False, None][int(h(recipe), 16) % 2]) if version >= 8 else None))
         err = None
     except PT_ERRORS as e:
         teal, err = None, e
